@@ -23,9 +23,10 @@ OPS = {
     'b': ['calc', 'A1=1', 'A3=2', 'compile'],
     'eng': ['calc', 'N=5', 'N=-3', 'compile'],
     'circ': ['calc', 'G=0', 'X=4'],
+    'look': ['calc', 'K=cherry', 'D=3', 'compile'],      # lookup / criteria functions (module-level vectorised helpers are used on the first evaluation)
     'd': ['calc', 'G3=11', 'G1:G5=1..5', 'compile-G', 'G2=txt,G5=2'],      # the last one overrides cells of the sparse range that are not nodes
 }
-PRE = {'a': ['RATE=5', 'B1=100'], 'b': ['A2=err', 'T!A1=ok'], 'eng': ['N=200', 'N=5'], 'circ': ['G=0', 'X=4'], 'd': ['B1=8', 'A1:C2=block']}
+PRE = {'look': ['K=cherry', 'D=3'], 'a': ['RATE=5', 'B1=100'], 'b': ['A2=err', 'T!A1=ok'], 'eng': ['N=200', 'N=5'], 'circ': ['G=0', 'X=4'], 'd': ['B1=8', 'A1:C2=block']}
 B = M.B
 
 
@@ -47,8 +48,18 @@ def circ_dict():
     return {P + 'G1': True, P + 'X1': 1, P + 'A1': '=%sX1+IF(%sG1,%sB1,0)' % (P, P, P), P + 'B1': '=%sA1+1' % P, P + 'C1': '=IFERROR(%sB1,7)' % P, P + 'D1': '=%sX1*2' % P}
 
 
+def look_dict():
+    P = "'[b.xlsx]S'!"
+    return {P + 'A1': 'apple', P + 'A2': 'Bean', P + 'A3': 'cherry', P + 'B1': 10, P + 'B2': 20, P + 'B3': 30, P + 'K1': 'bean', P + 'D1': 2,
+            P + 'E1': '=INDEX(%sA1:A3,%sD1)' % (P, P), P + 'E2': '=MATCH(%sK1,%sA1:A3,0)' % (P, P), P + 'E3': '=VLOOKUP(%sK1,%sA1:B3,2,FALSE)' % (P, P),
+            P + 'E4': '=COUNTIF(%sB1:B3,">"&%sD1)+SUMIF(%sA1:A3,%sK1,%sB1:B3)' % (P, P, P, P, P), P + 'E5': '=LOOKUP(%sD1*10,%sB1:B3)&HLOOKUP(2,{1,2,3;"x","y","z"},2)' % (P, P),
+            P + 'E6': '=AVERAGEIF(%sB1:B3,">=20")+VALUE("3")' % P}
+
+
 def fresh(model):
     import formulas
+    if model == 'look':
+        return formulas.ExcelModel().from_dict(look_dict())
     if model in ('a', 'b', 'd'):
         return c07.fresh(model)
     if model == 'eng':
@@ -84,6 +95,16 @@ def apply(m, model, name):
         if name == 'compile':
             f = m.compile([P + 'A1'], [P + 'A3', P + 'A4'])
             return json.dumps([classify_array(np.asarray(x.value, object)) for x in f(12)], default=str)
+    if model == 'look':
+        if name == 'calc':
+            return canon(m.calculate())
+        if name == 'K=cherry':
+            return canon(m.calculate({P + 'K1': 'cherry'}))
+        if name == 'D=3':
+            return canon(m.calculate({P + 'D1': 3}))
+        if name == 'compile':
+            f = m.compile([P + 'K1'], [P + 'E2', P + 'E3', P + 'E4'])
+            return json.dumps([classify_array(np.asarray(x.value, object)) for x in f('apple')], default=str)
     if model == 'circ':
         if name == 'calc':
             return canon(m.calculate())
